@@ -4242,5 +4242,14 @@ pub(crate) mod inspect {
         pub fn verif_collector(&self) -> &Collector {
             &self.collector
         }
+
+        /// Addresses of the `table` and `next_table` fields (to tell their accesses apart in
+        /// the recorded stream of atomic operations).
+        pub fn verif_field_addrs(&self) -> (usize, usize) {
+            (
+                &self.table as *const _ as usize,
+                &self.next_table as *const _ as usize,
+            )
+        }
     }
 }
